@@ -16,7 +16,13 @@ fn naive_line_col(input: &str, pos: usize) -> (usize, usize) {
     (line, col)
 }
 
-fn check_case(rep: &mut Report, text: &str, vm: &pest_vm::Vm, rule: &str, input: &str) {
+type Types = std::collections::HashMap<String, pest_meta::ast::RuleType>;
+
+fn types_of(rules: &[pest_meta::ast::Rule]) -> Types {
+    rules.iter().map(|r| (r.name.clone(), r.ty)).collect()
+}
+
+fn check_case(rep: &mut Report, text: &str, vm: &pest_vm::Vm, types: &Types, rule: &str, input: &str) {
     let run = run_vm(vm, rule, input, 1_000_000, true);
     rep.count("evaluations");
     match run.outcome {
@@ -49,6 +55,7 @@ fn check_case(rep: &mut Report, text: &str, vm: &pest_vm::Vm, rule: &str, input:
         }
     };
     let mut problems = vmon::errcheck::check(&acts, &err, |l| l.windows(2).all(|w| w[0] < w[1]));
+    problems.extend(vmon::errcheck::check_atomicity(&run.events, types));
     if err.pos > input.len() || !input.is_char_boundary(err.pos) {
         problems.push(format!("reported position {} is not a char boundary of the input", err.pos));
     } else if err.line_col != naive_line_col(input, err.pos) {
@@ -86,9 +93,9 @@ pub fn run(args: &Args) {
     if let Some(path) = &args.replay {
         let v: Value = serde_json::from_str(&std::fs::read_to_string(path).expect("replay file")).expect("json");
         let w = if v["witness"].is_object() { v["witness"].clone() } else { v.clone() };
-        if let Ok((_, opt)) = read_grammar(w["grammar"].as_str().unwrap()) {
+        if let Ok((ast, opt)) = read_grammar(w["grammar"].as_str().unwrap()) {
             let vm = pest_vm::Vm::new(opt);
-            check_case(&mut rep, w["grammar"].as_str().unwrap(), &vm, w["rule"].as_str().unwrap(), w["input"].as_str().unwrap());
+            check_case(&mut rep, w["grammar"].as_str().unwrap(), &vm, &types_of(&ast), w["rule"].as_str().unwrap(), w["input"].as_str().unwrap());
         }
         rep.finish(args);
         return;
@@ -113,6 +120,7 @@ pub fn run(args: &Args) {
         };
         let (inputs, _, _) = vmon::inputs::inputs_for(&ast, &mut grng, 12, 2, 60);
         let vm = pest_vm::Vm::new(optimized);
+        let types = types_of(&ast);
         rep.count("grammars_used");
         for r in &ast {
             for input in &inputs {
@@ -123,7 +131,7 @@ pub fn run(args: &Args) {
                     continue;
                 }
                 rep.journal(|| json!({"grammar": text, "rule": r.name, "input": input}));
-                check_case(&mut rep, &text, &vm, &r.name, input);
+                check_case(&mut rep, &text, &vm, &types, &r.name, input);
             }
         }
     }
